@@ -52,14 +52,22 @@ impl super::MainState {
                 },
             )
             .await?;
-            self.feed_msg(
-                &mut conn_state.stream,
-                RplMotd372 {
-                    client,
-                    motd: &self.config.motd,
-                },
-            )
-            .await?;
+            // message of the day can have many lines - one reply for every line.
+            for motd_line in self
+                .config
+                .motd
+                .split(|c| c == '\r' || c == '\n')
+                .filter(|l| !l.is_empty())
+            {
+                self.feed_msg(
+                    &mut conn_state.stream,
+                    RplMotd372 {
+                        client,
+                        motd: motd_line,
+                    },
+                )
+                .await?;
+            }
             self.feed_msg(&mut conn_state.stream, RplEndOfMotd376 { client })
                 .await?;
         }
